@@ -192,6 +192,9 @@ class SympyBackend:
             functions_map = {}
         for func_name, func in functions_map.items():
             expr = self._define_function(expr, func_name, func)
+        if expr.is_Rational and not expr.is_Integer:
+            # An exact fraction stays exact: rounding 2/3 to 0.666666666666667 makes ceiling(3 * x / 2) jump to 2.
+            return expr
         return value if (value := self.value_of(expr)) is not None else expr
 
     @identity_for_numbers
